@@ -518,6 +518,29 @@ theorem same_disk_readable (F0 F : FS) (hp : pickIdx F = pickIdx F0) (hl : logEn
       simp only [Option.map_some, Option.some.injEq]
       rw [hd (k, rd) hkmem]
 
+/-- a directory holding the complete new snapshot is openable: what is left of the old log is discarded by
+    `loadlog` (its header carries the previous version) -/
+theorem post_openOK {F0 G : FS} {S i v : Nat} {X fS : Bytes} (h : PostState F0 G S i X fS) (ho : OldParts F0 i v)
+    (hv : v < 2^32) (hX : checkIdxFile (some X) = some (u32 (v + 1), X)) (hR : DirReadable G) : OpenOK G := by
+  obtain ⟨⟨j, hp⟩, _⟩ := post_pick h ho hv hX
+  have hsv : snapVer G = u32 (v + 1) := by unfold snapVer; rw [hp]
+  refine ⟨?_, by rw [hsv]; exact u32_lt _, hR⟩
+  rw [hsv]
+  have hnone : G.log = none → (∃ E, (∀ e ∈ E, EntryFits e) ∧ LogState G (u32 (v + 1)) E) ∨ LogDiscarded G :=
+    fun hn => Or.inl ⟨[], (fun e he => by cases he), Or.inl ⟨hn, rfl⟩⟩
+  rcases h.log with h1 | h1
+  · obtain ⟨E, hE⟩ := ho.log
+    rcases hE with ⟨h2, _⟩ | h2
+    · exact hnone (h1.trans h2)
+    · refine Or.inr ⟨_, h1.trans h2, ?_⟩
+      rw [hsv]
+      unfold logBody
+      have ht : (le32 v ++ encLog E).take 4 = le32 v := List.take_left' (by simp)
+      rw [ht, leVal_le32 v hv]
+      have := u32_succ_ne v hv
+      simp [Ne.symm this]
+  · exact hnone h1
+
 /-- what the directory must look like before defrag starts -/
 structure DefragReady (db : DB) : Prop where
   cached : Cached db
@@ -527,6 +550,8 @@ structure DefragReady (db : DB) : Prop where
   verlt : db.verSeq < 2^32
   readable : DirReadable db.fs
   seqs : ∀ kr ∈ diskIndex db.fs, kr.2.seq ≠ u32 (db.dataSeq + 1)
+  logfits : ∃ E, (∀ e ∈ E, EntryFits e) ∧ LogState db.fs db.verSeq E
+  ver : snapVer db.fs = db.verSeq
   small : (snapBytes (u32 (db.verSeq + 1)) (layout (u32 (db.dataSeq + 1)) 4 db.index)).length ≤ bufSize
 
 /-- Every directory that exists inside defrag() — after any number of its file operations — reopens without
@@ -534,7 +559,7 @@ structure DefragReady (db : DB) : Prop where
     in-memory value. -/
 theorem defrag_prefix (db : DB) (hr : DefragReady db) :
     ∃ es, (defrag db).effs = db.effs ++ es ∧
-      ∀ n, DirReadable (db.fs.applyAll ((es.map (·.2)).take n)) ∧
+      ∀ n, OpenOK (db.fs.applyAll ((es.map (·.2)).take n)) ∧
         ((∀ k, diskValue (db.fs.applyAll ((es.map (·.2)).take n)) k = diskValue db.fs k) ∨
          (∀ k, diskValue (db.fs.applyAll ((es.map (·.2)).take n)) k = (ilookup k db.index).map valOf)) := by
   obtain ⟨A, B, hsh, hA, hB⟩ := defrag_effs_shape db hr.cached hr.small
@@ -592,7 +617,14 @@ theorem defrag_prefix (db : DB) (hr : DefragReady db) :
     have hpre := hpre0.applyAll (A'.take n) (fun e he => hA' e (List.mem_of_mem_take he))
     obtain ⟨g1, g2⟩ := hpre.grown hr.free
     have := same_disk_readable db.fs _ g1 g2 (fun kr hkr => hpre.dats _ (hr.seqs kr hkr)) hr.readable
-    exact ⟨this.1, Or.inl this.2⟩
+    have hsv : snapVer (db.fs.applyAll (A'.take n)) = db.verSeq := by
+      rw [← hr.ver]; unfold snapVer; rw [g1]
+    refine ⟨⟨Or.inl ?_, by rw [hsv]; exact hr.verlt, this.1⟩, Or.inl this.2⟩
+    obtain ⟨E, hE, hs⟩ := hr.logfits
+    refine ⟨E, hE, ?_⟩
+    rw [hsv]
+    unfold LogState at hs ⊢
+    rw [hpre.log]; exact hs
   · -- at or after the cut
     have ht : (A' ++ (Effect.appendIdx i X :: B')).take n =
         A' ++ (Effect.appendIdx i X :: B'.take (n - A'.length - 1)) := by
@@ -601,9 +633,9 @@ theorem defrag_prefix (db : DB) (hr : DefragReady db) :
       rw [hm, List.take_succ_cons]
       simp
     rw [ht, applyAll_append]
-    show DirReadable (Gc.applyAll (B'.take (n - A'.length - 1))) ∧ _
+    show OpenOK (Gc.applyAll (B'.take (n - A'.length - 1))) ∧ _
     have hpost := hpostc.applyAll (B'.take (n - A'.length - 1)) (fun e he => hB' e (List.mem_of_mem_take he))
     have := post_content db.index hr.wf (u32_lt _) hpost hr.old hr.verlt
-    exact ⟨this.1, Or.inr this.2⟩
+    exact ⟨post_openOK hpost hr.old hr.verlt (checkIdxFile_snapBytes _ _ (u32_lt _)) this.1, Or.inr this.2⟩
 
 end GocoinV.Proofs.C19
